@@ -306,6 +306,75 @@ func genJsonxVal(repo string, fs facts) (string, error) {
 		depthLimit = fmt.Sprintf("some %d", v)
 	}
 
+	// 9. the depth counter is balanced: p.depth++ only in enterNested, and every arm of
+	// parseValue that enters a level also leaves it (p.depth--) exactly once
+	depthOf := func(e ast.Expr) bool {
+		sel, ok := e.(*ast.SelectorExpr)
+		return ok && sel.Sel.Name == "depth"
+	}
+	countDepth := func(n ast.Node) (incs, decs, other int) {
+		ast.Inspect(n, func(x ast.Node) bool {
+			switch st := x.(type) {
+			case *ast.IncDecStmt:
+				if depthOf(st.X) {
+					if st.Tok == token.INC {
+						incs++
+					} else {
+						decs++
+					}
+				}
+			case *ast.AssignStmt:
+				for _, l := range st.Lhs {
+					if depthOf(l) {
+						other++
+					}
+				}
+			}
+			return true
+		})
+		return
+	}
+	depthBalanced, nestedArms := true, 0
+	for _, f := range jx.funcs() {
+		if f.Body == nil {
+			continue
+		}
+		incs, decs, other := countDepth(f.Body)
+		switch {
+		case f.Name.Name == "enterNested" && recvName(f) == "parser":
+			if incs != 1 || decs != 0 || other != 0 {
+				depthBalanced = false
+			}
+		case f.Name.Name == "parseValue":
+			if incs != 0 || other != 0 {
+				depthBalanced = false
+			}
+			ast.Inspect(f.Body, func(x ast.Node) bool {
+				cc, ok := x.(*ast.CaseClause)
+				if !ok {
+					return true
+				}
+				_, d, _ := countDepth(cc)
+				enters := 0
+				if c07ContainsCall(cc, "enterNested") {
+					enters = 1
+					nestedArms++
+				}
+				if d != enters {
+					depthBalanced = false
+				}
+				return false
+			})
+		default:
+			if incs != 0 || decs != 0 || other != 0 {
+				depthBalanced = false
+			}
+		}
+	}
+	if (depthLimit == "none") != (nestedArms == 0) {
+		depthBalanced = false
+	}
+
 	var b strings.Builder
 	b.WriteString("import PubModel.C07.Basic\nnamespace PubModel.Gen.JsonxVal\nopen PubModel.C07\n\n")
 	var kw []string
@@ -321,6 +390,7 @@ func genJsonxVal(repo string, fs facts) (string, error) {
 	fmt.Fprintf(&b, "/-- jsonx/print.go: format byte of the FormatFloat call -/\ndef fmtByte : Char := Char.ofNat %d\n\n", fmtByte)
 	fmt.Fprintf(&b, "/-- jsonx/encode.go encodeBasic: the tokInt arm converts with big.Int.SetString -/\ndef intConv : Bool := %v\n\n", intConv)
 	fmt.Fprintf(&b, "/-- jsonx/parse_value.go: nesting of objects and lists beyond this is reported as jsonx.tooDeep -/\ndef maxNestingDepth : Option Nat := %s\n\n", depthLimit)
+	fmt.Fprintf(&b, "/-- the nesting counter is balanced: incremented only by enterNested, and each of the %d arms of parseValue that enters a level decrements it exactly once -/\ndef depthBalanced : Bool := %v\n\n", nestedArms, depthBalanced)
 	b.WriteString("def cfg : Cfg :=\n  { keywords := keywords.map String.toList, operators := operators, expSigns := expSigns,\n    signedFloat := signedFloat, useNumber := useNumber, fmtByte := fmtByte, intConv := intConv }\n\n")
 	b.WriteString("end PubModel.Gen.JsonxVal\n")
 
@@ -332,5 +402,6 @@ func genJsonxVal(repo string, fs facts) (string, error) {
 	fs["jsonx.fmtByte"] = string(fmtByte)
 	fs["jsonx.intConv"] = intConv
 	fs["jsonx.maxNestingDepth"] = depthLimit
+	fs["jsonx.depthBalanced"] = depthBalanced
 	return b.String(), nil
 }
